@@ -191,15 +191,16 @@ func (w *worker) eval(a *refsmb.Assign, r *explore.Run) {
 		w.sample = map[string]any{"cmd": cmd.Name, "assignment": label, "library_bytes": vf.HexS(b), "reference_bytes": vf.HexS(ref.Bytes()), "full": a.Full}
 	}
 
+	fmtVariant := a.IsFormatVariant() // a caller-chosen buffer format: only the round-trip obligations apply
 	// ---- width
 	fr, ferr := refsmb.ParseFrame(b)
 	refOpt, _ := cmd.EncodeOpt(want, true) // the other legal encoding when an optional trailing parameter is zero
-	w.check(w.key("width/params"), ferr == nil && !ref.Odd && (len(fr.Words) == len(ref.Words) || len(fr.Words) == len(refOpt.Words)), func() string {
+	w.check(w.key("width/params"), fmtVariant || ferr == nil && !ref.Odd && (len(fr.Words) == len(ref.Words) || len(fr.Words) == len(refOpt.Words)), func() string {
 		return fmt.Sprintf("%s{%s}: library emits WordCount=%d (%d parameter bytes), the declared parameter fields%s are %d bytes wide%s; bytes %s (%v)",
 			cmd.Name, label, fr.WC, len(fr.Words), map[bool]string{true: " plus the 4-byte AndX block", false: ""}[cmd.AndX], len(ref.Words),
 			map[bool]string{true: " (odd: no WordCount can describe them)", false: ""}[ref.Odd], vf.HexS(b), ferr)
 	})
-	w.check(w.key("width/data"), ferr == nil && len(fr.Data) == len(ref.Data), func() string {
+	w.check(w.key("width/data"), fmtVariant || ferr == nil && len(fr.Data) == len(ref.Data), func() string {
 		return fmt.Sprintf("%s{%s}: library emits ByteCount=%d with %d bytes following, the data fields are %d bytes wide in their MS-CIFS encoding; library %s reference %s (%v)",
 			cmd.Name, label, fr.BC, len(b)-min(len(b), 3+2*fr.WC), len(ref.Data), vf.HexS(b), vf.HexS(ref.Bytes()), ferr)
 	})
